@@ -67,6 +67,23 @@ type Exec struct {
 	lastUnstable *MNode
 	// EverWritten: per object id, the block indices that ever held written data
 	EverWritten map[int]map[uint64]bool
+	HoleFill    map[int]int // per object id, upper bound of blocks allocated by reads of holes
+}
+
+// UsedUpper is an upper bound of the data blocks the live objects occupy.
+func (x *Exec) UsedUpper() int {
+	n := 0
+	for _, o := range x.M.Live() {
+		switch o.Kind {
+		case nt.NF3REG:
+			n += len(o.Blocks) + x.HoleFill[o.ID] + 4
+		case nt.NF3DIR:
+			n += 2 + len(o.Children)/16
+		default:
+			n += 1 + len(o.Target)/BlockSize
+		}
+	}
+	return n
 }
 
 func NewExec(s *Srv, prop string) (*Exec, error) {
@@ -99,19 +116,48 @@ func (x *Exec) logf(format string, a ...any) {
 	x.Log = append(x.Log, fmt.Sprintf("%d: ", len(x.Log))+fmt.Sprintf(format, a...))
 }
 
-func (x *Exec) errf(format string, a ...any) error {
+// OracleErr is a mismatch between the server and the reference.
+// Kind: "status", "data-exposed" (bytes that were never written there show up),
+// "data-lost" (written bytes are gone), "hang", "panic", "other".
+type OracleErr struct {
+	Kind string
+	Msg  string
+}
+
+func (e *OracleErr) Error() string { return e.Msg }
+
+func errKind(err error) string {
+	if oe, ok := err.(*OracleErr); ok {
+		return oe.Kind
+	}
+	return "other"
+}
+
+func (x *Exec) errk(kind, format string, a ...any) error {
 	last := ""
 	if len(x.Log) > 0 {
 		last = x.Log[len(x.Log)-1]
 	}
-	return fmt.Errorf("%s\n  at op: %s", fmt.Sprintf(format, a...), last)
+	return &OracleErr{Kind: kind, Msg: fmt.Sprintf("%s\n  at op: %s", fmt.Sprintf(format, a...), last)}
+}
+
+func (x *Exec) errf(format string, a ...any) error { return x.errk("other", format, a...) }
+
+func dataKind(got, want byte) string {
+	if got != 0 && got != want {
+		return "data-exposed"
+	}
+	return "data-lost"
 }
 
 // call runs one RPC under the watchdog.
 func (x *Exec) call(f func()) error {
 	o := Guard(x.Watchdog, f)
+	if o.Hung {
+		return x.errk("hang", "%v", o)
+	}
 	if o.Bad() {
-		return x.errf("%v", o)
+		return x.errk("panic", "%v", o)
 	}
 	return nil
 }
@@ -127,9 +173,9 @@ func (x *Exec) status(st nt.Nfsstat3, wantOK bool, refs ...Ref) error {
 	x.Log[len(x.Log)-1] += fmt.Sprintf(" -> %d", st)
 	if (st == nt.NFS3_OK) != wantOK {
 		if wantOK {
-			return x.errf("the server refused (status %d) a request the reference performs", st)
+			return x.errk("status", "the server refused (status %d) a request the reference performs", st)
 		}
-		return x.errf("the server performed a request the reference refuses")
+		return x.errk("status", "the server performed a request the reference refuses")
 	}
 	if !wantOK && x.StrictStale {
 		for _, r := range refs {
@@ -316,7 +362,7 @@ func (x *Exec) Read(r Ref, off uint64, cnt uint32) error {
 			len(got), r.N.Size, len(full), min)
 	}
 	if d := firstDiff(got, full[:len(got)]); d >= 0 {
-		return x.errf("READ data differs from the reference at file offset %d: got %#x want %#x (block %d; a zero reference byte means never written)",
+		return x.errk(dataKind(got[d], full[d]), "READ data differs from the reference at file offset %d: got %#x want %#x (block %d; a zero reference byte means never written)",
 			off+uint64(d), got[d], full[d], (off+uint64(d))/BlockSize)
 	}
 	if off >= r.N.Size && !res.Resok.Eof {
@@ -326,6 +372,10 @@ func (x *Exec) Read(r Ref, off uint64, cnt uint32) error {
 		return x.errf("READ reported eof at offset %d but the file has %d bytes", off+uint64(len(got)), r.N.Size)
 	}
 	x.Budget -= int64(cnt/BlockSize) + 4 // reads of holes allocate
+	if x.HoleFill == nil {
+		x.HoleFill = map[int]int{}
+	}
+	x.HoleFill[r.N.ID] += len(got)/BlockSize + 2
 	return nil
 }
 
@@ -908,8 +958,8 @@ func compareFile(api API, fh nt.Nfs_fh3, n *MNode) error {
 			if d < len(exp) {
 				w = exp[d]
 			}
-			return fmt.Errorf("%s differs from the reference at offset %d (block %d): got %#x want %#x; read %d bytes, reference has %d",
-				n.Path(), off+uint64(d), (off+uint64(d))/BlockSize, g, w, len(res.Resok.Data), len(exp))
+			return &OracleErr{Kind: dataKind(g, w), Msg: fmt.Sprintf("%s differs from the reference at offset %d (block %d): got %#x want %#x; read %d bytes, reference has %d",
+				n.Path(), off+uint64(d), (off+uint64(d))/BlockSize, g, w, len(res.Resok.Data), len(exp))}
 		}
 		i = j + 1
 	}
@@ -932,7 +982,7 @@ func (x *Exec) CompareAll() error {
 		return err
 	}
 	if cerr != nil {
-		return x.errf("%v", cerr)
+		return x.errk(errKind(cerr), "%v", cerr)
 	}
 	return nil
 }
